@@ -412,6 +412,13 @@ func (t *tables) coq() (string, []int) {
 			setch[i+1][id] = t.in.id(setChannelRaw(s, t.u.channel(i)))
 		}
 	}
+	// the channel each raw URN names in its channel query (what reading the contact back derives the pointer from)
+	urnchan := map[int]int{}
+	for _, id := range urnIDs {
+		if cu, err := flows.ParseRawURN(t.u.sa.Channels(), urns.URN(t.in.names[id-1]), noMissing); err == nil && cu.Channel() != nil {
+			urnchan[id] = channelIndex(cu.Channel()) + 1
+		}
+	}
 	var sc []string
 	for i, m := range setch {
 		sc = append(sc, fmt.Sprintf("(%d,%s)", i, pairs(m)))
@@ -502,8 +509,8 @@ func (t *tables) coq() (string, []int) {
 			gq[i] = fmt.Sprintf("(Some (QConst %s))", hx.Bool(t.consts[i]))
 		}
 	}
-	s := fmt.Sprintf("{| x_max := %d; x_norm := %s; x_valid := %s; x_ident := %s; x_scheme := %s;\n      x_setch := [%s]; x_tel := 1; x_cansend := %s; x_supports := [%s];\n      x_ftypes := [%s]; x_pnum := [%s]; x_pdt := [%s];\n      x_ploc := [%s];\n      x_seencmp := [%s];\n      x_groups := [%s] |}",
-		t.u.spec.MaxChars, pairs(norm), coqListN(valid), pairs(ident), pairs(scheme), strings.Join(sc, ";"), coqListN(cansend), strings.Join(supports, ";"),
+	s := fmt.Sprintf("{| x_max := %d; x_norm := %s; x_valid := %s; x_ident := %s; x_scheme := %s;\n      x_setch := [%s]; x_tel := 1; x_urnchan := %s; x_cansend := %s; x_supports := [%s];\n      x_ftypes := [%s]; x_pnum := [%s]; x_pdt := [%s];\n      x_ploc := [%s];\n      x_seencmp := [%s];\n      x_groups := [%s] |}",
+		t.u.spec.MaxChars, pairs(norm), coqListN(valid), pairs(ident), pairs(scheme), strings.Join(sc, ";"), pairs(urnchan), coqListN(cansend), strings.Join(supports, ";"),
 		strings.Join(ft, ";"), strings.Join(pnum, ";"), strings.Join(pdt, ";"), strings.Join(ploc, ";\n        "), strings.Join(seencmp, ";"), strings.Join(gq, "; "))
 	return s, urnIDs
 }
